@@ -55,6 +55,25 @@ Theorem C06_edit_top_level_sorted :
 Proof. exact edit_top_sorted. Qed.
 Print Assumptions C06_edit_top_level_sorted.
 
+(* sorting is a canonical FORM: two duplicate-free dictionaries are written as the same bytes exactly
+   when they hold the same entries (in any insertion order) -- so the bytes fix every field, and no
+   two different contents share a metafile or an info-hash input (Proofs/BencodeCanonForm.v) *)
+From TF Require Import Proofs.BencodeCanonForm.
+Theorem C06_written_bytes_iff_same_entries : forall d d',
+  NoDup (map fst d) -> NoDup (map fst d') ->
+  Forall (fun kv => nodup_keys (snd kv)) d -> Forall (fun kv => nodup_keys (snd kv)) d' ->
+  (encode (BDict (sort_keys d)) = encode (BDict (sort_keys d')) <-> Permutation.Permutation d d').
+Proof. exact sorted_encoding_iff_perm. Qed.
+Print Assumptions C06_written_bytes_iff_same_entries.
+
+Theorem C06_written_bytes_fix_every_field : forall d d',
+  NoDup (map fst d) -> NoDup (map fst d') ->
+  Forall (fun kv => nodup_keys (snd kv)) d -> Forall (fun kv => nodup_keys (snd kv)) d' ->
+  encode (BDict (sort_keys d)) = encode (BDict (sort_keys d')) ->
+  forall k, lookup k d = lookup k d'.
+Proof. exact sorted_encoding_fixes_lookups. Qed.
+Print Assumptions C06_written_bytes_fix_every_field.
+
 (* ---------------------------------------------------------------------------------------------- *)
 (* creator level (Model/Creators.v, tied to torrent.py byte for byte -- `encode` of the modelled value vs *)
 (* the bytes of the written file -- by the unit correspondence of harness/props/creators_common.py).      *)
